@@ -706,10 +706,56 @@ def _lift_operand(o):
   return None
 
 
+def note_use(t):
+  """Closure-capture rule (C14, F16/F23): inside the traced region of a lax control-flow primitive (cond / while_loop
+  bodies are compiled even in eager mode) a caller-owned NumPy state leaf that is CAPTURED rather than passed as an
+  operand becomes a compile-time constant; computing on it may round differently from the uninterrupted run.
+  Returning / selecting it unchanged is harmless and is not flagged."""
+  if isinstance(t, Tensor) and t.tags.get("numpy_owned"):
+    c = sym._ctx.CUR
+    if c is not None and c.ghost.get("traced_regions"):
+      region = c.ghost["traced_regions"][-1]
+      c.fail(f"frame:traced-region-computes-on-a-captured-caller-owned-state-leaf@{region}", kind="frame",
+             detail=f"{t.tags.get('numpy_owned')}: restored NumPy leaves must be passed as operands or converted with jnp.asarray "
+                    "before a lax.cond / lax.while_loop body closes over them")
+
+
+class traced_region:
+  """Entered by the lax.cond / lax.while_loop contracts around the branch / body functions."""
+
+  def __init__(self, name):
+    self.name = name
+
+  def __enter__(self):
+    self.c = sym._ctx.CUR
+    if self.c is not None:
+      self.c.ghost.setdefault("traced_regions", []).append(self.name)
+    return self
+
+  def __exit__(self, *a):
+    if self.c is not None:
+      self.c.ghost["traced_regions"].pop()
+    return False
+
+
+def as_operands(tree):
+  """Operands of a traced region are run-time arguments: inside the region they are fresh arrays (no ownership tag),
+  while a captured reference to the same NumPy leaf stays a captured constant."""
+  from . import pytree
+
+  def f(l):
+    if isinstance(l, Tensor) and l.tags.get("numpy_owned"):
+      return Tensor(l.shape, l.dtype, l._fn, _tags(l))
+    return l
+
+  return pytree.tree_map(f, tree)
+
+
 def ew(f, *operands, cmp=False, dtype=None):
   ts = []
   for o in operands:
     t = _lift_operand(o)
+    note_use(t)
     ts.append(t)
   shapes = [t.shape for t in ts if t is not None]
   out_shape = broadcast_shapes(*shapes) if shapes else ()
@@ -1631,6 +1677,7 @@ class Reduction:
 
 
 def _reduce(kind, x, axis, keepdims=False):
+  note_use(x)
   x = asarray(x)
   if axis is None:
     axes = list(range(x.ndim))
@@ -1835,6 +1882,8 @@ class Contraction:
 
 
 def tensordot(a, b, axes=2, precision=None):
+  note_use(a)
+  note_use(b)
   a, b = asarray(a), asarray(b)
   if isinstance(axes, int):
     ax_a = list(range(a.ndim - axes, a.ndim))
@@ -1892,6 +1941,8 @@ def tensordot(a, b, axes=2, precision=None):
 
 
 def matmul(a, b, precision=None):
+  note_use(a)
+  note_use(b)
   a, b = asarray(a), asarray(b)
   if a.ndim == 2 and b.ndim == 2:
     return tensordot(a, b, axes=([1], [0]))
@@ -1905,6 +1956,8 @@ def matmul(a, b, precision=None):
 
 
 def einsum(formula, *ops, precision=None):
+  for o_ in ops:
+    note_use(o_)
   formula = formula.replace(" ", "")
   ins, out = formula.split("->")
   ins = ins.split(",")
